@@ -19,10 +19,21 @@ CFG = {
                      "a space glyph without underline/strike/reverse and a blank cell of the same background are treated as the same display "
                      "(TCell.norm); the content under the right half of a wide glyph is not compared"],
     "assumptions": ["autowrap on, origin mode off, insert mode off, no left/right margins (the property's vocabulary cannot change them)"],
-    "level_text": "C06: refinement of the reference terminal by the emulator model, operation by operation (see level_note for what is proved), "
-                  "and the reference terminal evaluated as oracle on the implementation after every operation of bounded-exhaustive and random "
-                  "histories.",
-    "level_note": "see notes/C06.md",
+    "level_text": "C06: the emulator model refines the reference terminal Spec.Term (DESIGN Appendix A): emu_refines_term — for every pair of "
+                  "states related by the simulation relation Sim2 (the reference accepts the emulator's size, selector, cursor/pending-wrap, pen, "
+                  "margins, every cell with bce background, saved cursors), every screen 1x1..65535^2, every operation of the vocabulary (print "
+                  "narrow/wide, CR, LF, IND, NEL, RI, CUP/HVP, CHA/HPA, VPA, CUU, CUD, CUF, CUB, CNL, CPL, EL, ED, ECH, ICH, DCH, IL, DL, SU, SD, "
+                  "DECSTBM, DECSC, DECRC, ?1049h/l) with every parameter value, the emulator step succeeds and is accepted by the reference "
+                  "(accept-sets) unless the reference leaves it unconstrained; lifted to all histories from start-up (emu_refines_histories, "
+                  "emu_refines_from_start). Witness/F21,F22,F54,F106a-c prove the statement was false before the repairs.",
+    "level_note": "Proved for all states/parameters/histories: every operation of the vocabulary except SGR. SGR: the pen interpretation is "
+                  "compared by the oracle on the implementation only (C18 proves it for its own model of sgr.go); statement kept as "
+                  "emu_refines_term_full. Restrictions: grapheme string non-empty (the parser never emits an empty one); parameters with "
+                  "sub-parameters / more than two parameters are outside tokOf. Model tied to the source by Gen/TermModes.lean (dispatch through "
+                  "the regenerated tables) and by the C05 correspondence stream (snapshot after every op, incl. a slice of the C06 sequences); "
+                  "the reference is additionally evaluated as oracle on the IMPLEMENTATION after every op of the bounded-exhaustive and random "
+                  "histories (driver C06, independent of the transcribed functions). Spec adjustments vs Appendix A (accept-sets added): DECRC "
+                  "may restore the pending-wrap flag; ?1049h may clear with the current background.",
     "technique": "Lean 4 proof (refinement of an abstract reference terminal) + oracle evaluation on the real code",
     "timeout": 2400,
 }
